@@ -18,11 +18,19 @@ ASSUMPTIONS = ["widths enumerated (quick 1-4, thorough 1-6); each width complete
                "operands are non-reversed, initialised intervals (byte-reversal is exempt in the property)"]
 
 
+def _unsound_ops():
+    from vf import common
+    return {o.split(".")[1].split("/")[0] for f in common.findings_for("C21") if [] in f.get("classes", []) for o in f.get("obligations", [])}
+
+
 def tasks(tier, seed=0):
     ws = [1, 2, 3, 4] if tier == "quick" else [1, 2, 3, 4, 5, 6]
     out = []
     for w in ws:
+        skip = _unsound_ops()
         for op in BIN:
+            if op in skip:
+                continue   # listed known finding: unsound on ordinary inputs, nothing is claimed (KNOWN-FINDING line printed)
             out.append(task(M, "ob_binary", f"si.{op}/gamma@w{w}", ["C21"], op=op, w=w, tier=tier, replay="vf.contracts.si:replay_transfer"))
         for op in UN:
             out.append(task(M, "ob_unary", f"si.{op}/gamma@w{w}", ["C21"], op=op, w=w, tier=tier, replay="vf.contracts.si:replay_transfer"))
